@@ -93,6 +93,49 @@ Definition write_message (m : message) : bytes :=
   ++ (if negb (m_pending_bytes m =? 0) then qp_with_tag 40 (qp_write_int32 (m_pending_bytes m)) else []).
 
 (* ------------------------------------------------------------------------------------------ *)
+(* Well-formed message values (hypothesis of C10_body_roundtrip / C11_emit_valid):
+   byte strings are bytes; int32 fields hold a u32 bit pattern; every nested message is shorter than
+   2^32 (quick-protobuf reads lengths with read_varint32) - which bounds every length-delimited field
+   as well, a field being shorter than the message that contains it; the whole body has a usize
+   length. *)
+Definition two32 : N := 2 ^ 32.
+
+Definition wf_entry (e : entry) : Prop :=
+  wf_bytes (e_block e) /\ e_priority e < two32 /\ size_entry e < two32.
+
+Definition wf_wantlist (w : wantlist) : Prop :=
+  Forall wf_entry (w_entries w) /\ size_wantlist w < two32.
+
+Definition wf_block (b : block) : Prop :=
+  wf_bytes (b_prefix b) /\ wf_bytes (b_data b) /\ size_block b < two32.
+
+Definition wf_presence (p : block_presence) : Prop :=
+  wf_bytes (bp_cid p) /\ size_presence p < two32.
+
+Definition wf_message (m : message) : Prop :=
+  match m_wantlist m with Some w => wf_wantlist w | None => True end
+  /\ Forall wf_block (m_payload m)
+  /\ Forall wf_presence (m_presences m)
+  /\ m_pending_bytes m < two32
+  /\ size_message m < two64.
+
+(* executable versions (wf_messageb_spec in ProtoCodec_proofs.v) *)
+Definition wf_entryb (e : entry) : bool :=
+  wf_bytesb (e_block e) && (e_priority e <? two32) && (size_entry e <? two32).
+Definition wf_wantlistb (w : wantlist) : bool :=
+  forallb wf_entryb (w_entries w) && (size_wantlist w <? two32).
+Definition wf_blockb (b : block) : bool :=
+  wf_bytesb (b_prefix b) && wf_bytesb (b_data b) && (size_block b <? two32).
+Definition wf_presenceb (p : block_presence) : bool :=
+  wf_bytesb (bp_cid p) && (size_presence p <? two32).
+Definition wf_messageb (m : message) : bool :=
+  match m_wantlist m with Some w => wf_wantlistb w | None => true end
+  && forallb wf_blockb (m_payload m)
+  && forallb wf_presenceb (m_presences m)
+  && (m_pending_bytes m <? two32)
+  && (size_message m <? two64).
+
+(* ------------------------------------------------------------------------------------------ *)
 (* from_reader                                                                                *)
 
 (* while !r.is_eof() { match r.next_tag(bytes) { ... } }  Ok(msg)
